@@ -258,7 +258,48 @@ fn coverage(level: &CmdSpec, cmd: &clap::Command, page: &str, ctx: &mut Ctx) -> 
     let display = level.display_name.clone().unwrap_or_else(|| {
         cmd.get_display_name().map(|s| s.to_owned()).unwrap_or_else(|| level.name.clone())
     });
+    // the SYNOPSIS section alone (hidden positionals have no dash to tell them from ordinary words elsewhere)
+    let synopsis = {
+        let mut out = String::new();
+        let mut keep = false;
+        for line in page.lines() {
+            if let Some(title) = line.strip_prefix(".SH ") {
+                keep = title.trim_matches('"') == "SYNOPSIS";
+                continue;
+            }
+            if keep {
+                out.push_str(line);
+                out.push('\n');
+            }
+        }
+        plain(&out)
+    };
     for a in &level.args {
+        if a.hide && a.is_positional() {
+            let name = a.value_names.first().cloned().unwrap_or_else(|| a.id.clone());
+            // words that the synopsis holds for other reasons
+            let mut legit: Vec<String> = vec![level.name.clone(), display.clone()];
+            legit.extend(cmd.get_bin_name().map(|s| s.to_owned()));
+            legit.extend(level.subcommand_value_name.clone());
+            legit.extend(level.subcommand_help_heading.clone());
+            for o in level.args.iter().filter(|o| !o.hide) {
+                legit.extend(o.long.clone());
+                legit.push(o.id.clone());
+                legit.extend(o.value_names.iter().cloned());
+            }
+            let clash = legit.iter().any(|l| l.split(|c: char| !(c.is_alphanumeric() || c == '_' || c == '-')).any(|w| w == name) || has_token(l, &name));
+            if !clash && !name.is_empty() {
+                ensure!(
+                    !has_token(&synopsis, &name),
+                    "man:hidden-positional-shown",
+                    "hidden positional {:?} appears in the synopsis of {:?}\n{}",
+                    name,
+                    level.name,
+                    page
+                );
+                ctx.label("man:hidden-positional-checked");
+            }
+        }
         if a.hide {
             if let Some(l) = &a.long {
                 let visible_same = level.args.iter().any(|o| !o.hide && (o.long.as_ref() == Some(l)));
